@@ -33,6 +33,7 @@ package main
 //	   => closes=<n>;fn=<n>
 //	sniff kind=<https|mux|muxpt> early=<n> n=  real vhost HTTPS muxer / tcpmux CONNECT muxer over loopback
 //	   => got=<all|rest|lost>;miss=<bytes missing>
+//	rsrc / wsnk / tail                        the io.Reader / io.Writer contract: see eng_stack_io.go
 import (
 	"bufio"
 	"bytes"
@@ -136,11 +137,28 @@ func stkGen(rng *rand.Rand, n int, emit func(string)) {
 		}
 		emit(fmt.Sprintf("disp n=%d to=x", np))
 	}
+	// the io.Reader contract on the real half-tunnels: every option combination of both halves reads a work connection
+	// that ends the way a quic stream does (the last bytes together with EOF), and once in another generated way
+	for _, side := range []string{"srv", "cli"} {
+		for _, lim := range []int{0, 1} {
+			for _, enc := range []int{0, 1} {
+				for _, comp := range []int{0, 1} {
+					emit(stkGenTail(rng, side, enc, comp, lim, "E"))
+					emit(stkGenTail(rng, side, enc, comp, lim, pick(rng, []string{"e", "X", "x", "E"})))
+				}
+			}
+		}
+	}
 	emit("wrl b=16384 n=1048576")
 	// frp's own shapes: Join's 16 KiB copy buffer against an 8KB / 16KB / 4KB limit, waited for at 50 MB/s
 	emit("wlim b=8192 r=50000000 w=16384,16384,5000 room=1000000 seed=1")
 	emit("wlim b=16384 r=0 w=16392,16384 room=1000000 seed=2")
 	emit("rlim b=4096 r=0 plen=16384 per=16384 n=40000 seed=3")
+	// a stream that ends the way a quic stream does, as frp wraps it (8KB limit, 16 KiB copy buffer): the last 700 bytes come with
+	// EOF — handed on, but not charged (known finding C01-limit-reader-uncharged-tail); the same stream ending the tcp way
+	emit("rsrc st=lim8192 plen=16384 segs=20000:0,700:E r=0 seed=4")
+	emit("rsrc st=lim8192+stats plen=16384 segs=20000:0,700:0,0:E r=0 seed=4")
+	emit("wsnk st=lim8192+stats w=16384,16384,5000 sink=100000000:0,100000000:0,4000:0 r=0 seed=5")
 	emit("wrl b=65536 n=65536")
 	emit("wrl b=65536 n=65537")
 	for i := 0; i < n; i++ {
@@ -153,7 +171,15 @@ func stkGen(rng *rand.Rand, n int, emit func(string)) {
 			emit(stkGenDl(rng, pick(rng, []string{"https", "mux", "muxpt"}), rng.Intn(2) == 0))
 			continue
 		}
+		if rng.Intn(100) == 0 {
+			emit(stkGenTail(rng, pick(rng, []string{"srv", "cli"}), rng.Intn(2), rng.Intn(2), rng.Intn(2), pick(rng, []string{"E", "E", "e", "X", "x"})))
+			continue
+		}
 		switch r := rng.Intn(100); {
+		case r < 6:
+			emit(stkGenRsrc(rng))
+		case r < 10:
+			emit(stkGenWsnk(rng))
 		case r < 36:
 			b := 1 + rng.Intn(9)
 			if rng.Intn(4) == 0 {
@@ -172,6 +198,8 @@ func stkGen(rng *rand.Rand, n int, emit func(string)) {
 		case r < 46:
 			b := 1 + rng.Intn(5000)
 			emit(fmt.Sprintf("wrl b=%d n=%d", b, rng.Intn(20*b+2)))
+		case r < 50:
+			emit(stkGenRlim(rng))
 		case r < 60:
 			b := 1 + rng.Intn(40)
 			emit(fmt.Sprintf("rd b=%d plen=%d avail=%d", b, 1+rng.Intn(60), rng.Intn(60)))
@@ -918,6 +946,7 @@ type stkSrv struct {
 	mu     sync.Mutex
 	peers  chan *stkWork
 	closes []*int32
+	script *stkScriptConn // tail op: the next work connection is this scripted one
 }
 
 type stkWork struct {
@@ -976,6 +1005,14 @@ func stkGetSrv(enc, comp, lim bool) *stkSrv {
 		PoolCount:          0,
 		ResourceController: rc,
 		GetWorkConnFn: func() (net.Conn, error) {
+			s.mu.Lock()
+			sc := s.script
+			s.script = nil
+			s.mu.Unlock()
+			if sc != nil {
+				s.peers <- &stkWork{closes: &sc.closes}
+				return sc, nil
+			}
 			a, b := stkPair()
 			w := &stkWork{peer: b, closes: new(int32)}
 			s.peers <- w
@@ -1283,10 +1320,15 @@ func stkWrapOp(kv map[string]string) string {
 
 // ---------------------------------------------------------------- sniff replay
 
-var stkHello = map[string][]byte{}
+var (
+	stkHello   = map[string][]byte{}
+	stkHelloMu sync.Mutex // the e2e life op probes from several goroutines
+)
 
 // a real ClientHello record for the server name, produced by crypto/tls
 func stkClientHello(sni string) []byte {
+	stkHelloMu.Lock()
+	defer stkHelloMu.Unlock()
 	if h, ok := stkHello[sni]; ok {
 		return h
 	}
@@ -1453,6 +1495,12 @@ func stkExec(tok []string) string {
 		return stkSniffOp(kv)
 	case "dl":
 		return stkDlOp(kv)
+	case "rsrc":
+		return stkRsrc(kv)
+	case "wsnk":
+		return stkWsnk(kv)
+	case "tail":
+		return stkTailOp(kv)
 	case "qclose":
 		return stkQCloseOp(kv)
 	}
